@@ -10,6 +10,7 @@ mod c03;
 mod c04;
 mod c10;
 mod c11;
+mod c13;
 mod c15;
 mod c16;
 mod c17;
@@ -44,6 +45,9 @@ fn eval(op: &str, args: &[&str]) -> Option<Vec<String>> {
         "hval" | "hvalrt" => c02::hval(args),
         "hname" => c02::hname(args),
         "mime" => c11::mime(args),
+        "dkim" => c13::dkim(args),
+        "dkimbody" => c13::dkimbody(args),
+        "dkimhdrs" => c13::dkimhdrs(args),
         "mbox" => c17::mbox(args),
         "mboxlist" => c17::mboxlist(args),
         "mboxparse" => c17::mboxparse(args),
